@@ -36,7 +36,16 @@ Theorem C10_unverifiable_not_passed : forall (c : cfg) (e : env) (ctx_ok : bool)
 Proof. exact unverifiable_not_passed. Qed.
 Print Assumptions C10_unverifiable_not_passed.
 
-(* The full statement is false for the tree as found: each of the eight guards is needed.
+(* QuorumCert.Equals (called by VerifyAnyQC on the block QC and the high QC of a verified aggregate
+   QC) is total: for every combination of nil / present signatures, equal or different views, hashes
+   and bytes it returns, and certificates that differ in signature presence are never equal. *)
+Theorem C10_qc_equals_total : forall (g : guards) (vh_eq a b same_bytes : bool),
+  g_equals g = true ->
+  qc_equals g vh_eq a b same_bytes <> Panic /\ (a <> b -> qc_equals g vh_eq a b same_bytes = Ok false).
+Proof. intros g vh a b same G. split; [exact (qc_equals_total g vh a b same G) | exact (qc_equals_nil_mismatch g vh a b same G)]. Qed.
+Print Assumptions C10_qc_equals_total.
+
+(* The full statement is false for the tree as found: each of the nine guards is needed.
    With only that guard removed, a concrete wire message (or nil converter argument) panics. *)
 Theorem C10_never_panics_unguarded_refuted :
   handle (mkcfg Ecdsa false false (set_guard 0 false all_guards)) env_all true w_srv_block = Panic /\
@@ -46,7 +55,9 @@ Theorem C10_never_panics_unguarded_refuted :
   handle (mkcfg Ecdsa false true (set_guard 4 false all_guards)) env_all true w_agg_any = Panic /\
   handle (mkcfg Ecdsa false true (set_guard 5 false all_guards)) env_all true w_agg_sync = Panic /\
   handle (mkcfg Ecdsa true false (set_guard 6 false all_guards)) env_all true w_cache = Panic /\
-  handle (mkcfg Bls false false (set_guard 7 false all_guards)) env_all false w_bitfield = Panic.
+  handle (mkcfg Bls false false (set_guard 7 false all_guards)) env_all false w_bitfield = Panic /\
+  handle (mkcfg Ecdsa false true (set_guard 8 false all_guards)) env_signed_hq true w_equals = Panic /\
+  handle (mkcfg Ecdsa false true (set_guard 8 false all_guards)) env_unsigned_hq true w_equals' = Panic.
 Proof. exact guards_needed. Qed.
 Print Assumptions C10_never_panics_unguarded_refuted.
 
